@@ -131,8 +131,18 @@ theorem evalExpr_same (c : Ctx) (e : Expr) : ∀ {s s' : St} {v : Val},
         · cases h
         · simp only [Except.ok.injEq, Prod.mk.injEq] at h
           obtain ⟨-, rfl⟩ := h; exact ih he
+    · next tb i s1 he =>
+      split at h
+      · split at h
+        · simp only [Except.ok.injEq, Prod.mk.injEq] at h
+          obtain ⟨-, rfl⟩ := h; exact ih he
+        · cases h
+      · split at h
+        · cases h
+        · simp only [Except.ok.injEq, Prod.mk.injEq] at h
+          obtain ⟨-, rfl⟩ := h; exact ih he
     · cases h
-    · next v1 s1 _ _ _ _ he =>
+    · next v1 s1 _ _ _ _ _ he =>
       simp only [Except.ok.injEq, Prod.mk.injEq] at h
       obtain ⟨-, rfl⟩ := h; exact ih he
   | add a b iha ihb =>
@@ -262,6 +272,11 @@ theorem renderRef_walk_same (ps : List String) : ∀ {t v : Val} {s s' : St},
         · cases h
         · next i s1 hs => exact (slotId_same hs).trans (ih h)
       · split at h <;> cases h
+    · split at h
+      · split at h
+        · exact ih h
+        · cases h
+      · split at h <;> cases h
     · cases h
     · cases h
     · cases h
@@ -285,6 +300,10 @@ theorem renderRef_same {c : Ctx} {path : List String} {s s' : St} {v : Val}
             obtain ⟨-, rfl⟩ := h; exact hws.trans (slotId_same hs)
         · simp only [Except.ok.injEq, Prod.mk.injEq] at h
           obtain ⟨-, rfl⟩ := h; exact hws
+        · split at h
+          · simp only [Except.ok.injEq, Prod.mk.injEq] at h
+            obtain ⟨-, rfl⟩ := h; exact hws
+          · cases h
         · cases h
         · cases h
         · split at h <;> cases h
@@ -306,6 +325,9 @@ theorem canon_same {s s' : St} {v : Val} {o : OVal} (h : canon s v = .ok (o, s')
     · cases h
     · next i s1 hs =>
       simp only [Except.ok.injEq, Prod.mk.injEq] at h; obtain ⟨-, rfl⟩ := h; exact slotId_same hs
+  · split at h
+    · simp only [Except.ok.injEq, Prod.mk.injEq] at h; obtain ⟨-, rfl⟩ := h; exact Same.refl _
+    · cases h
 
 theorem canonFields_same (vs : List (String × Val)) : ∀ {s s' : St} {os : List (String × OVal)},
     canonFields vs s = .ok (os, s') → Same s s' := by
